@@ -141,6 +141,7 @@ def _gen_case(rng, tier):
     ifaces = _gen_ifaces(rng, n)
     obj = n + 1
     classes = [{"bases": [], "decl": []}]
+    falsy = rng.choice([None, None, "len", "bool"])      # falsy class objects (metaclass __len__ / __bool__)
     for k in range(1, rng.choice([1, 1, 2, 3, 4, 5])):
         prev = [n + 2 + j for j in range(k)]
         bs = sorted(rng.sample(prev, rng.choice([0, 1, 1, min(2, len(prev))])), reverse=True)
@@ -148,6 +149,8 @@ def _gen_case(rng, tier):
         if bs or rng.random() < 0.3:
             decl = [rng.randrange(1, n + 1) for _ in range(rng.choice([0, 1, 1, 2]))]
             classes.append({"bases": bs, "decl": decl})
+            if falsy and rng.random() < 0.5:
+                classes[-1]["falsy"] = falsy
         else:
             # declared through nested / one-shot iterable arguments (no class-specification leaves, no references)
             classes.append({"bases": [], "decl": [], "via": rng.choice(["implementer", "classImplements"]),
@@ -162,6 +165,8 @@ def _gen_case(rng, tier):
             decls.append({"spec": super_nodes[k]})       # every super specification is an operand
         elif rng.random() < 0.12:
             decls.append({"spec": rng.choice(class_nodes + [obj])})
+        elif rng.random() < 0.08:
+            decls.append({"empty": True})        # the shared _empty singleton (directlyProvidedBy of a bare object)
         else:
             decls.append({"args": [_gen_tree(rng, 3, n, class_nodes, len(decls))
                                    for _ in range(rng.choice([0, 1, 2, 2, 3, 3, 4]))]})
@@ -267,6 +272,17 @@ def _fixed_cases():
                   "decls": [{"args": [leaf(4), leaf(3), leaf(2), leaf(1)]}, {"args": [leaf(1), leaf(4)]},
                             {"args": [leaf(4), leaf(1), leaf(2), leaf(3)]}, {"args": [leaf(2), leaf(2), leaf(4)]}],
                   "radd": [1, 2, 3, 4], "cls": 6, "ops": [["also", [leaf(1), leaf(4)]], ["nolonger", 2], ["also", [leaf(3)]]]})
+    # falsy class objects with own + inherited declarations; the shared empty declaration and bare interfaces
+    # as operands of + and -
+    for kind_ in ("len", "bool"):
+        cases.append({"ifaces": ch,
+                      "classes": [{"bases": [], "decl": []}, {"bases": [], "decl": [1], "falsy": kind_},
+                                  {"bases": [7], "decl": [4]}, {"bases": [8], "decl": []},
+                                  {"bases": [6], "decl": [2], "falsy": kind_}],
+                      "decls": [{"spec": 8}, {"spec": 9}, {"empty": True}, {"args": [leaf(2)]}, {"spec": 10},
+                                {"args": [{"r": 2}, leaf(3)]}],
+                      "radd": [2, 4, 3, 3, 1, 4], "cls": 9,
+                      "ops": [["also", [leaf(2)]], ["nolonger", 2], ["also", [leaf(3), leaf(4)]]]})
     return cases
 
 
@@ -296,12 +312,14 @@ def _tree(t, decls):
     if "d" in t:
         return "(TDecl %s)" % C.clist([_tree(x, decls) for x in t["d"]])
     d = decls[t["r"]]
+    if d.get("empty"):
+        return "(TDecl [])"
     if "spec" in d:
         return "(TLeaf %d)" % d["spec"]
     return "(TDecl %s)" % C.clist([_tree(x, decls) for x in d["args"]])
 
 
-FAIL_TERM = "(mkCase [] [] [] [] [] [] [] [] [] [] false false [] 0 [] [] None)"
+FAIL_TERM = "(mkCase [] [] [] [] [] [] [] [] [] [] [] false false [] 0 [] [] None)"
 
 
 def coq_case(case, obs, mode):
@@ -325,6 +343,8 @@ def coq_case(case, obs, mode):
     sbase = len(case["ifaces"]) + 2 + len(case["classes"])
 
     def _operand(d):
+        if d.get("empty"):
+            return "(OArgs [])"
         if "spec" not in d:
             return "(OArgs %s)" % C.clist([_tree(x, decls) for x in d["args"]])
         if d["spec"] >= sbase:
@@ -335,14 +355,20 @@ def coq_case(case, obs, mode):
     n = len(case["ifaces"])
     cdecl = C.clist(["(%d, %s)" % (n + 2 + k, C.clist([_tree(x, decls) for x in cd["dtrees"]]))
                      for k, cd in enumerate(case["classes"]) if cd.get("dtrees") is not None and not cd["bases"]])
+    def _res(r):
+        if "exc" in r:
+            return "(false, None, None, None)"
+        cin = "None" if isinstance(r["in"], dict) else "(Some %s)" % C.clist([C.cbool(b) for b in r["in"]])
+        return "(%s, %s, %s, %s)" % (C.cbool(r["isdecl"]), _obs(r["iter"]), cin, _obs(r["flat"]))
+    bare = C.clist(["(%d, %s, %s, %s)" % (x, _res(r[0]), _res(r[1]), _res(r[2])) for x, r in zip(case["radd"], obs["bare"])])
     ctw = ["None" if isinstance(r, dict) else "(Some %s)" % C.clist([C.cbool(b) for b in r]) for r in obs["ctwin"]]
     ptw = "None" if isinstance(obs["ptwin"], dict) else "(Some %s)" % C.clist([C.cbool(b) for b in obs["ptwin"]])
-    return "(mkCase %s %s %s %s %s %s %s %s %s %s %s %s %s %d %s %s %s)" % (
+    return "(mkCase %s %s %s %s %s %s %s %s %s %s %s %s %s %s %d %s %s %s)" % (
         C.clist(["(%d, %s)" % (k, _nl(bs)) for k, bs in obs["graph"]]), _nl(obs["ifs"]), C.clist(dterms),
         C.clist([_obs(o) for o in obs["iter"]]), C.clist(cont), C.clist(ctw), C.clist([_obs(o) for o in obs["flat"]]),
         C.clist([C.clist([_obs(o) for o in row]) for row in obs["sub"]]),
         C.clist([C.clist([_obs(o) for o in row]) for row in obs["add"]]),
-        C.clist(["(%d, %s)" % (x, _obs(o)) for x, o in zip(case["radd"], obs["radd"])]),
+        C.clist(["(%d, %s)" % (x, _obs(o)) for x, o in zip(case["radd"], obs["radd"])]), bare,
         C.cbool(obs["unchanged"]), C.cbool(obs["bases_ok"]), cdecl, case["cls"], C.clist(ops), C.clist(inst), ptw)
 
 
@@ -458,7 +484,14 @@ def replay_text(case, obs, mode):
     L.append("K = {%d: object}; N[%d] = implementedBy(object)" % (n + 1, n + 1))
     for k, cd in enumerate(case["classes"]):
         node = n + 2 + k
-        L.append("K[%d] = type('K%d', (%s) or (object,), {})" % (node, k, "".join("K[%d], " % b for b in cd["bases"])))
+        meta = {"len": "type('LenMeta', (type,), {'__len__': lambda c: 0})",
+                "bool": "type('BoolMeta', (type,), {'__bool__': lambda c: False})"}.get(cd.get("falsy"))
+        if meta and not any(case["classes"][b - n - 2].get("falsy") for b in cd["bases"]):
+            L.append("M = globals().get('M') or %s" % meta)
+            L.append("K[%d] = M('K%d', (%s) or (object,), {})" % (node, k, "".join("K[%d], " % b for b in cd["bases"])))
+        else:
+            L.append("K[%d] = type(K[%d])('K%d', (%s), {})" % (node, cd["bases"][0], k, "".join("K[%d], " % b for b in cd["bases"]))
+                     if cd["bases"] else "K[%d] = type('K%d', (object,), {})" % (node, k))
         if cd.get("dtrees") is not None:
             args = ", ".join(_py_tree(x) for x in cd["dtrees"])
             if cd.get("via") == "classImplements":
@@ -479,12 +512,15 @@ def replay_text(case, obs, mode):
             L.extend(rb)
             rb = []
         L.append("D.append(%s)" % ("N[%d]" % d["spec"] if "spec" in d else
+                                   "directlyProvidedBy(K[%d]())" % (n + 2) if d.get("empty") else
                                    "Declaration(%s)" % ", ".join(_py_tree(x) for x in d["args"])))
     L.extend(rb)
     L.append("name = lambda it: [k for o in it for k, v in N.items() if v is o]")
     L.append("for a, A in enumerate(D):")
     L.append("    print(a, 'iter', name(A), 'flattened', name(A.flattened()), 'contains', [x in A for x in N.values()], 'twins', [t in A for t in T])")
     L.append("    for b, B in enumerate(D): print(a, b, 'sub', name(A - B), 'add', name(A + B))")
+    L.append("RADD = %r   # bare interface operands" % (case["radd"],))
+    L.append("for A, x in zip(D, RADD): print('bare', x, [(type(R).__name__, name(R)) for R in (A + N[x], A - N[x], N[x] + A)])")
     L.append("o = K[%d]()" % case["cls"])
     for op in case["ops"]:
         if op[0] == "nolonger":
